@@ -1294,8 +1294,17 @@ func buildCSReq(q CSReq, known []string, now int64) built {
 		v.ContentLn = int64(len(wire)) + q.ClenAdd
 	}
 	v.Digest = shaHex(wire)
+	// the path and query AS THE SERVER RECEIVES THEM: the target text parsed by net/url (percent-decoding of the
+	// path; nothing is cleaned), not go-zero code
 	v.Path, v.Query = q.Path, q.Query
-	v.TagUrl = hmacB64(usedKey, strings.Join([]string{ts, q.Method, q.Path, q.Query, v.Digest}, "\n"))
+	tgt := "http://localhost" + q.Path
+	if q.Query != "" {
+		tgt += "?" + q.Query
+	}
+	if u, err := url.ParseRequestURI(tgt); err == nil {
+		v.Path, v.Query = u.Path, u.RawQuery
+	}
+	v.TagUrl = hmacB64(usedKey, strings.Join([]string{ts, q.Method, v.Path, v.Query, v.Digest}, "\n"))
 	if q.Xuri != nil && *q.Xuri != "" {
 		if u, err := url.Parse(*q.Xuri); err == nil {
 			p, qq := u.Path, u.RawQuery
